@@ -86,13 +86,18 @@ class Check(PropertyCheck):
                   "lower-case ASCII hosts, ports 1..65535 with default-port elision, ASCII paths) and with it url_get_set_idempotent_ascii and "
                   "url_get_set_idempotent_ascii_rest (re-assigning request.url changes nothing; the latter without the restStable hypothesis), and "
                   "url_get_set_idempotent_derived (port range, leading '/', is_valid_host, the IDNA round trip and path stability all derived "
-                  "from the setter's own success); url_get_set_idempotent_partial (general library, explicit hypothesis) + "
+                  "from the setter's own success), url_get_set_idempotent_final (the path's ASCII-ness derived too: only the request's shape, the "
+                  "IDNA law for ASCII names and _check_bracketed_host for IPv6 literals are assumed), setUrl_fields and url_read_back_equivalent "
+                  "(the fields are what url.parse made of the URL; the URL read back parses like the one assigned), "
+                  "edit_history_keeps_host_header_and_authority_pointing_to_destination (fold form over any edit sequence); url_get_set_idempotent_partial (general library, explicit hypothesis) + "
                   "url_get_set_idempotent_counterexample (IDN, F-C33b). Model tied to the real Request objects, url.parse, parse_authority "
                   "and urllib.parse.urlsplit differentially.")
     level_note = ("PARTIAL for IDN hosts (F-C33b: Request.url returns the U-label form which url.parse rejects). For ASCII hosts the former "
                   "hypothesis 'url.parse reads the getter's URL back' is now proved (url_parse_reads_getter_url); what remains assumed there are "
-                  "(url_get_set_idempotent_derived) only the IDNA law for ASCII names (IdnaAsciiLaw: ASCII in, ASCII out => unchanged) and, for "
-                  "IPv6 literals, bracketedOk, besides the shape of the request (http/https, lower-case ASCII host, ASCII path). In the "
+                  "(url_get_set_idempotent_final; pathAscii is derived now as well) only the IDNA law for ASCII names (IdnaAsciiLaw: ASCII in, ASCII out => unchanged) and, for "
+                  "IPv6 literals, bracketedOk (CPython's ipaddress behind _check_bracketed_host: a third-party fact, kept as a named hypothesis; "
+                  "is_valid_host needs no transcription here because its verdict is derived from the setter's own check), besides the shape "
+                  "of the request (http/https, lower-case ASCII host). In the "
                   "intermediate url_get_set_idempotent_ascii_rest: three named library facts, fields of GetterUrlOk2: bracketedOk (_check_bracketed_host/ipaddress accepts the IPv6 literal), "
                   "idnaAscii (the IDNA round trip leaves an ASCII host alone), hostValid (is_valid_host accepts it). The fourth, restStable, is "
                   "now a theorem: urlsplit's cutting at # and ?, urlparse's ;params and urlunparse's re-assembly are transcribed (normRestPy, "
